@@ -7,3 +7,9 @@ package network
 var SimNetwork Network
 
 func simNet() Network { return SimNetwork }
+
+// SimOffline, when set, makes connections neither dial nor start their socket goroutines
+// (verification builds only): frames are then fed to the receive callbacks directly.
+var SimOffline bool
+
+func simOffline() bool { return SimOffline }
